@@ -472,6 +472,11 @@ EGLPNUM_TYPENAME_QSLIB_INTERFACE int EGLPNUM_TYPENAME_QSopt_pivotin_row (
 	rval = grab_basis (p);
 	CHECKRVALG (rval, CLEANUP);
 
+	/* the stored solution belongs to the basis the pivots have left: with it
+	 * (and the factorization, which is current) in place the next solve would
+	 * be answered from the cache */
+	free_cache (p);
+
 CLEANUP:
 
 	EG_RETURN (rval);
@@ -532,6 +537,9 @@ EGLPNUM_TYPENAME_QSLIB_INTERFACE int EGLPNUM_TYPENAME_QSopt_pivotin_col (
 
 	rval = grab_basis (p);
 	CHECKRVALG (rval, CLEANUP);
+
+	/* as in QSopt_pivotin_row: the stored solution is that of another basis */
+	free_cache (p);
 
 CLEANUP:
 
@@ -2613,13 +2621,6 @@ EGLPNUM_TYPENAME_QSLIB_INTERFACE int EGLPNUM_TYPENAME_QSget_binv_row (
 		rval = 1;
 		goto CLEANUP;
 	}
-	if (p->cache == 0)
-	{
-		QSlog("LP has not been optimized in EGLPNUM_TYPENAME_QSget_binv_row");
-		rval = 1;
-		goto CLEANUP;
-	}
-
 	if (p->factorok == 0)
 	{
 		QSlog("EGLPNUM_TYPENAME_QSget_binv_row: the simplex data of the problem are not current "
@@ -2647,13 +2648,6 @@ EGLPNUM_TYPENAME_QSLIB_INTERFACE int EGLPNUM_TYPENAME_QSget_tableau_row (
 	rval = check_qsdata_pointer (p);
 	CHECKRVALG (rval, CLEANUP);
 
-	if (p->cache == 0)
-	{
-		QSlog("LP has not been optimized in EGLPNUM_TYPENAME_QSget_tableau_row");
-		rval = 1;
-		goto CLEANUP;
-	}
-
 	if (p->factorok == 0)
 	{
 		QSlog("EGLPNUM_TYPENAME_QSget_tableau_row: the simplex data of the problem are not current "
@@ -2679,13 +2673,6 @@ EGLPNUM_TYPENAME_QSLIB_INTERFACE int EGLPNUM_TYPENAME_QSget_basis_order (
 
 	rval = check_qsdata_pointer (p);
 	CHECKRVALG (rval, CLEANUP);
-
-	if (p->cache == 0)
-	{
-		QSlog("LP has not been optimized in EGLPNUM_TYPENAME_QSget_basis_order");
-		rval = 1;
-		goto CLEANUP;
-	}
 
 	if (p->factorok == 0)
 	{
